@@ -176,3 +176,12 @@ check("C15",
       level_text="exhaustive over the stated fault product",
       level_note="back-off jitter uses math/rand: durations are not pinned, the oracles do not depend on them (only on attempt counts and on the clock not advancing after a cancel)")
 CHECKS["C18"]["packages"] = ["l1chan", "schedh"]
+CHECKS["C07"]["packages"] = ["l1chan", "l2transport", "schedh"]
+
+check("C14",
+      packages=["l2monitor"],
+      technique="explicit-state BFS with replay over subscriber events, clock ticks and API-call completions on the real channel monitor driven black-box through a parking double of its manager API, under a virtual clock; conformance with a property-level reference (in-flight / queued / consecutive-count / timers)",
+      rule="BFS (quick depth 4, thorough depth 6) over 14 operations {Accept, SendDataError, ReceiveDataError, DataSent, FinishTransfer, other event, event with cleanup status, event with terminal status, error of another channel, tick 1u, complete oldest pending call ok / error, add same channel again, Monitor.Shutdown} for configurations max in {1,2,3} x accept/complete timeout in {0,2u,3u} x debounce {0,1u} x backoff {0,2u} (quick: 3 configurations) + disabled; oracle: no overlapping attempts, reconnect/restart call counts and the pending call equal the reference (exact for debounce=backoff=0), close-with-error count equals the reference (<=1; accept/complete timeouts exactly when the event did not arrive in time, never when disabled), unsubscribed + forgotten + never closed after a cleanup/terminal status was seen. distinct = distinct (reference state, API log) pairs.",
+      design_ref="DESIGN.md 5/C14",
+      level_text="exhaustive within the depth bound",
+      level_note="events are delivered at quiescent points; goroutine-level races inside the monitor are covered by the scheduler cells")
